@@ -1,8 +1,6 @@
 package main
 
 import (
-	"strconv"
-	"os"
 	"archive/tar"
 	"bytes"
 	"compress/bzip2"
@@ -10,10 +8,12 @@ import (
 	"fmt"
 	"io"
 	"io/ioutil"
+	"os"
 	"path"
 	"path/filepath"
 	"reflect"
 	"sort"
+	"strconv"
 	"strings"
 
 	"github.com/kjk/lzma"
@@ -140,6 +140,19 @@ func init() {
 	ops["debload"] = func(a []string) string {
 		buf := []byte(arg(a, 0))
 		d, err := deb.Load(bytes.NewReader(buf), "x.deb")
+		if err != nil {
+			if d != nil {
+				return "err-with-value"
+			}
+			return "err"
+		}
+		defer d.Close()
+		return observe(d, len(buf))
+	}
+	// debloadeof buf -> Load through an io.ReaderAt that returns io.EOF together with the last bytes
+	ops["debloadeof"] = func(a []string) string {
+		buf := []byte(arg(a, 0))
+		d, err := deb.Load(eagerEOFReaderAt{buf}, "x.deb")
 		if err != nil {
 			if d != nil {
 				return "err-with-value"
